@@ -31,6 +31,15 @@ func verifDir() string {
 	return "/verif"
 }
 
+// outDir: where evidence and replay files are written (VERIF_OUT overrides it for mutation runs so that the committed
+// evidence of the unchanged tree is not overwritten)
+func outDir() string {
+	if d := os.Getenv("VERIF_OUT"); d != "" {
+		return d
+	}
+	return verifDir()
+}
+
 func loadKnown() []engine.KnownFinding {
 	b, err := os.ReadFile(filepath.Join(verifDir(), "known_findings.json"))
 	if err != nil {
@@ -200,14 +209,18 @@ func check(args []string) int {
 				continue
 			}
 			// unexplained: replay twice on fresh worlds before reporting
-			ok1, h1 := reproduce(sc, fr)
-			ok2, h2 := reproduce(sc, fr)
+			ok1, h1 := true, [32]byte{}
+			ok2, h2 := true, [32]byte{}
+			if !p.NoReproduce {
+				ok1, h1 = reproduce(sc, fr)
+				ok2, h2 = reproduce(sc, fr)
+			}
 			if !ok1 || !ok2 || h1 != h2 {
 				fmt.Printf("HARNESS-NONDETERMINISM: failure %s/%s did not reproduce identically on replay (%v %v)\n", fr.F.Oracle, fr.F.Cause, ok1, ok2)
 				return 2
 			}
 			name := fmt.Sprintf("%s-%s-%s-%d.json", id, sc.Name, sanitize(fr.F.Oracle+"-"+fr.F.Cause), fi)
-			path, err := engine.WriteReplay(filepath.Join(verifDir(), "replays"), engine.ReplayFile{
+			path, err := engine.WriteReplay(filepath.Join(outDir(), "replays"), engine.ReplayFile{
 				Property: id, Scenario: sc.Name, Tier: *tier, Seed: fr.Seed, Ops: fr.Trace, Failure: fr.F, Human: traceLine(fr.Seed, fr.Trace),
 			}, name)
 			if err != nil {
@@ -231,7 +244,7 @@ func check(args []string) int {
 				continue
 			}
 			name := fmt.Sprintf("%s-extra-%s-%d.json", id, sanitize(f.Oracle+"-"+f.Cause), fi)
-			path, _ := engine.WriteReplay(filepath.Join(verifDir(), "replays"), engine.ReplayFile{Property: id, Scenario: "extra", Tier: *tier, Failure: f, Human: f.Msg}, name)
+			path, _ := engine.WriteReplay(filepath.Join(outDir(), "replays"), engine.ReplayFile{Property: id, Scenario: "extra", Tier: *tier, Failure: f, Human: f.Msg}, name)
 			violations++
 			vioLines = append(vioLines, fmt.Sprintf("VIOLATION property=%s replay=%s", id, path))
 			fmt.Printf("  violation oracle=%s cause=%s\n    %s\n", f.Oracle, f.Cause, f.Msg)
@@ -341,7 +354,7 @@ func writeEvidence(id, tier string, seed int64, p *props.Property, reps []*engin
 		"wall_s":      wall,
 		"violations":  violations,
 	}
-	dir := filepath.Join(verifDir(), "evidence")
+	dir := filepath.Join(outDir(), "evidence")
 	os.MkdirAll(dir, 0o755)
 	b, _ := json.MarshalIndent(ev, "", " ")
 	if err := os.WriteFile(filepath.Join(dir, id+".json"), b, 0o644); err != nil {
